@@ -252,6 +252,9 @@ def encCase (routes : List Route) (hasErrs : Bool) (errs : List Route) (r : Req)
 
 /-- counter-example lines replayed on the implementation on every run (see Witness.lean) -/
 def witnessLines : List String :=
-  [ encCase wDownstreamRoutes false [] wReq ]
+  [ encCase wDownstreamRoutes false [] wReq,
+    encCase wRewriteRoutes true wRewriteErrs wReq,
+    encCase (wOrderRoutes wSetA) false [] wReq,
+    encCase (wOrderRoutes wSetB) false [] wReq ]
 
 end CaddyModel.C05
